@@ -88,6 +88,25 @@ def _e2e_case(draw):
     return {"k": "e2e", "api": api, "options": opts, "inner": {"seed": draw(st.integers(0, 2 ** 31)), "n": 10}}
 
 
+# coverage-guided stage (atheris/libFuzzer through Hypothesis' fuzz_one_input) over the schema functions (fn tier)
+FUZZ_MODULES = ("gapic.schema.wrappers",)
+_FUZZ_INFO = {}
+
+
+def fuzz_strategy(worker=0):
+    return _fn_case()
+
+
+def extra_stage(tier, seed, rec):
+    import sys
+    from harness import fuzz_stage
+    fuzz_stage.stage(sys.modules[__name__], tier, seed, rec, _FUZZ_INFO)
+
+
+def evidence_extra(rec, tier):
+    return {"coverage_guided_stage": dict(_FUZZ_INFO)}
+
+
 def strategy(tier):
     # about one end-to-end library per 120 function-level cases (one_of would merge identical branches)
     return st.integers(0, 120).flatmap(lambda i: _e2e_case() if i == 0 else _fn_case())
